@@ -51,4 +51,11 @@ pub proof fn axiom_u128_tz(x: u128)
 pub assume_specification [u128::trailing_zeros] (x: u128) -> (r: u32)
     ensures r == u128_tz(x);
 
+
+/// std::cmp::{max, min} through vstd's `cmp_spec` (for the primitive integers vstd makes cmp_spec the numeric order)
+pub assume_specification<T: core::cmp::Ord + core::marker::Destruct> [std::cmp::max] (a: T, b: T) -> (r: T)
+    ensures r == (if vstd::std_specs::cmp::OrdSpec::cmp_spec(&a, &b) == core::cmp::Ordering::Greater { a } else { b });
+pub assume_specification<T: core::cmp::Ord + core::marker::Destruct> [std::cmp::min] (a: T, b: T) -> (r: T)
+    ensures r == (if vstd::std_specs::cmp::OrdSpec::cmp_spec(&a, &b) == core::cmp::Ordering::Greater { b } else { a });
+
 } // verus!
